@@ -251,4 +251,28 @@ PROPS = {
             rapid("c02", "TestPropCommands", quick=(1500, 6), thorough=(30000, 14)),
         ],
     },
+    "C03": {
+        "level": "exploration",
+        "rule": "after LOGIN/ENABLE/SELECT, 1..4 commands whose backend answer is a generated plan written through the real server "
+                "writers: LIST (attributes in random case, delimiters incl. NIL/quote/backslash, UTF-7 names, CHILDINFO, OLDNAME, paired "
+                "STATUS), STATUS (every item subset, boundary numbers, APPENDLIMIT NIL), SELECT (flags, permanent flags incl. \\*, "
+                "counts, UIDNEXT/UIDVALIDITY at 2^32-1, LIST under rev2), FETCH/UID FETCH (0..4 messages x UID, FLAGS, INTERNALDATE "
+                "with zones, RFC822.SIZE to 2^63-1, ENVELOPE with NIL/empty/group addresses and msg-id lists, BODY/BODYSTRUCTURE trees "
+                "to depth 3 with multipart, message/rfc822, text, parameters, dispositions, languages, locations; BODY[section]<origin> "
+                "and BINARY[part] literals of 0..70000 octets incl. NUL/8-bit; BINARY.SIZE), STORE's FETCH data, SEARCH in SEARCH and "
+                "ESEARCH form (empty, singletons, ranges, 2^32-1; MIN/MAX/COUNT/ALL subsets), APPENDUID, COPYUID for COPY and MOVE (+ "
+                "EXPUNGE), NAMESPACE (nil/empty/multiple), EXPUNGE streams, CAPABILITY; with IMAP4rev2 and UTF8=ACCEPT enabled or not. "
+                "The value returned by Wait/Collect is rendered in a canonical form (INBOX fold, attribute/flag case tables, parameter "
+                "keys lower-cased, empty encoding = 7BIT upper-cased, Sender/Reply-To default to From, second granularity dates with "
+                "offset, nil = empty, 0 = absent in FetchMessageBuffer) and must equal the plan's; literals by length and hash. "
+                "Non-trivial: every session (each contains at least one composite response); distinct by hash of (config, plans).",
+        "assumptions": ["textual fields are valid UTF-8; strings containing an RFC 2047 encoded-word are the listed known finding F-C03b and are generated away (counted)",
+                        "message-ids use the RFC 5322 msg-id alphabet (the API stores them without angle brackets)",
+                        "response partial origins are 32-bit (response grammar)",
+                        "APPENDLIMIT NIL is represented by the client API as 2^32-1"],
+        "units": [
+            plain("c03", "TestKnownEncodedWord"),
+            rapid("c03", "TestPropResponses", quick=(1200, 6), thorough=(25000, 14)),
+        ],
+    },
 }
